@@ -13,6 +13,8 @@ from .common import cbool, clist, cpair, cstr, cz
 def err_class(e: BaseException) -> str:
     from dissect.cstruct import exceptions as X
 
+    if type(e).__name__ == "Hang":
+        return "EOutOfFuel"
     if isinstance(e, EOFError):
         return "EEof"
     if isinstance(e, X.ArraySizeError):
